@@ -159,6 +159,12 @@ pub struct HandlerRunner {
     /// a node last sealed something for / was delivered something authentic from a peer address
     key_born: HashMap<[u8; 16], std::time::Instant>,
     entry_use: HashMap<(u64, SocketAddr), std::time::Instant>,
+    /// C13: challenges a node put on the wire: (node, challenge) -> (not issued before (ledger ms), address);
+    /// and when a handshake was last delivered to a node from an address
+    chal_issued: HashMap<(u64, u64), (u64, SocketAddr)>,
+    /// C19: the 4-byte counter in front of every message nonce, per key -> the nonce it was seen in
+    key_ctr: HashMap<([u8; 16], [u8; 4]), [u8; 12]>,
+    hs_delivered: HashMap<(u64, SocketAddr), u64>,
     /// when a node last sealed something fresh for (address, node): its session was certainly alive then
     entry_lo: HashMap<(u64, SocketAddr, u64), std::time::Instant>,
     /// something happened since that may have ended the session for a reason of its own (a packet that
@@ -214,6 +220,9 @@ impl Default for HandlerRunner {
             step_start_ms: 0,
             key_born: HashMap::new(),
             entry_use: HashMap::new(),
+            chal_issued: HashMap::new(),
+            key_ctr: HashMap::new(),
+            hs_delivered: HashMap::new(),
             entry_lo: HashMap::new(),
             entry_dirty: HashSet::new(),
             vanished: Vec::new(),
@@ -848,6 +857,8 @@ impl HandlerRunner {
                     let now = self.now_ms;
                     if let Some(d) = self.wire_dst_hint {
                         self.ledger.outstanding_chal.entry((from, cd)).or_insert((now, dst_idx, d));
+                        let lo = self.step_start_ms;
+                        self.chal_issued.entry((from, cd)).or_insert((lo, d));
                     }
                 }
             }
@@ -936,6 +947,17 @@ impl HandlerRunner {
                         // the 8 random bytes behind the 4-byte counter are all equal with probability 2^-56
                         if matches!(p.kind, PacketKind::Message { .. }) && p.nonce[4..].iter().all(|b| *b == p.nonce[4]) {
                             out.push(format!("!MON C19 message-nonce-random-part-degenerate node={}", from));
+                        }
+                        // the counter in front of the nonce is what keeps nonces apart whatever the random
+                        // part does: under one key it never comes twice
+                        {
+                            let ctr: [u8; 4] = p.nonce[..4].try_into().unwrap();
+                            match self.key_ctr.get(&(k, ctr)) {
+                                Some(n0) if *n0 != p.nonce => out.push(format!("!MON C19 message-counter-repeated-under-one-key node={} counter={}", from, u32::from_be_bytes(ctr))),
+                                _ => {
+                                    self.key_ctr.insert((k, ctr), p.nonce);
+                                }
+                            }
                         }
                         match self.ledger.key_nonce.get(&(k, p.nonce)) {
                             Some(h0) if *h0 != h => out.push(format!("!MON C19 nonce-reused-under-key node={}", from)),
@@ -1073,6 +1095,24 @@ impl HandlerRunner {
                     *on_wire.entry(a).or_insert(0) += 1;
                 }
             }
+        }
+        // ... and so is a challenge of this node that cannot have expired yet (a full timeout has not
+        // passed since the earliest moment it can have gone out) and that no handshake from that address
+        // can have consumed
+        let mut chal_addrs: Vec<SocketAddr> = Vec::new();
+        for ((n, _), (lo, a)) in self.chal_issued.iter() {
+            if *n != idx || self.now_ms + 5 >= *lo + self.timeout_ms {
+                continue;
+            }
+            if self.hs_delivered.get(&(idx, *a)).map(|t| *t >= *lo).unwrap_or(false) {
+                continue;
+            }
+            if !chal_addrs.contains(a) {
+                chal_addrs.push(*a);
+            }
+        }
+        for a in chal_addrs {
+            *on_wire.entry(a).or_insert(0) += 1;
         }
         for (a, w) in on_wire {
             let have = map.get(&a).copied().unwrap_or(0);
@@ -1572,6 +1612,7 @@ impl HandlerRunner {
                 }
                 self.cur_hs_unchallenged = false;
                 if self.delivering_handshake {
+                    self.hs_delivered.insert((tidx, src), self.now_ms);
                     let claimed: u64 = term.as_ref().and_then(|t| t.split('~').nth(1).and_then(|x| x.parse().ok())).unwrap_or(0);
                     let now = self.now_ms;
                     let timeout = self.timeout_ms;
